@@ -5,7 +5,7 @@ procedure is executed (source and result) by the reference interpreter on the
 whole control domain with symbolic data."""
 import json
 
-from vf import explore, menus, oracles, seeds, findings
+from vf import explore, menus, oracles, seeds, findings, plans
 from vf.oracles import BaseOracle
 
 
@@ -48,12 +48,7 @@ def seed_list(tier):
 
 def run(rep):
     tier = rep.tier
-    names = seed_list(tier)
-    if tier == "quick":
-        st = explore.explore(rep, names, "vf.checks.c01", tier, depth=1, root_parts=6)
-    else:
-        st = explore.explore(rep, names, "vf.checks.c01", tier, depth=2, root_parts=8,
-                             max_states_per_level=6000, time_budget_s=3000)
+    st = plans.run_plan(rep, "vf.checks.c01", tier, plans.standard(tier))
     fill_evidence(rep, st)
 
 
@@ -66,6 +61,7 @@ def fill_evidence(rep, st):
     rep.set("per_op_attempted_returned", st["per_op"])
     rep.set("oracle_stats", st["oracle_stats"])
     rep.set("levels", st["levels"])
+    rep.set("phases", st.get("phases"))
     rep.set("timeouts", st["timeouts"])
     rep.set("cap_hit", st["cap_hit"])
     rep.set("exhaustive", st["cap_hit"] is None)
